@@ -481,6 +481,10 @@ class Exec:
                 return FuncV(lambda ex, s, args, kw, nd, _m=npmodel.ARRAY_METHODS[attr], _v=v: _m(ex, s, [_v] + list(args), kw, nd),
                              f"ndarray.{attr}")
             raise Undecided(f"ndarray.{attr}")
+        if isinstance(v, MaskedV):
+            if attr == "flatten":
+                return FuncV(lambda ex, s, args, kw, nd, _v=v: npmodel.masked_flatten(ex, s, _v, nd), "selection.flatten")
+            raise Undecided(f"attribute .{attr} of a boolean-mask selection")
         from . import objects
         if isinstance(v, objects.SObj):
             return objects.sobj_getattr(self, st, v, attr, node)
@@ -585,6 +589,15 @@ class Exec:
                 i, j = z3.Ints("i!m j!m")
                 body = lit(self._elementwise([i, j], shape, lambda: f(self.sel2(da, i, j), self.sel2(db, i, j))))
                 return self.alloc_arr(st, shape, L2(i, j, body), elem or self.elem_kind(body))
+            if {da.rank, db.rank} == {1, 2}:
+                # numpy broadcasting aligns trailing axes: the 1-D operand is a row, repeated for every row of the 2-D operand
+                d2, d1 = (da, db) if da.rank == 2 else (db, da)
+                if not z3.eq(z3.simplify(d2.shape[1]), z3.simplify(d1.shape[0])):
+                    self.safe(st, "row-broadcast-length", d2.shape[1] == d1.shape[0], node)
+                i, j = z3.Ints("i!m j!m")
+                x2, x1 = self.sel2(d2, i, j), self.sel1(d1, j)
+                body = lit(self._elementwise([i, j], d2.shape, lambda: f(x2, x1) if da.rank == 2 else f(x1, x2)))
+                return self.alloc_arr(st, d2.shape, L2(i, j, body), elem or self.elem_kind(body))
             raise Undecided("broadcasting between arrays of different rank")
         d = da if da is not None else db
         sc = b if da is not None else a
@@ -1288,6 +1301,14 @@ class Exec:
             return
         idx = self.ev(sl, st)
         if isinstance(idx, ARef):
+            di = self.arr(st, idx)
+            if di.elem == "bool" and di.rank == 2 and not isinstance(val, ARef):
+                # a[mask2d] = scalar: the scalar where the mask (same shape) is True
+                if not (z3.eq(z3.simplify(di.shape[0]), z3.simplify(d.shape[0])) and z3.eq(z3.simplify(di.shape[1]), z3.simplify(d.shape[1]))):
+                    self.safe(st, "mask-store-shape", z3.And(di.shape[0] == d.shape[0], di.shape[1] == d.shape[1]), node)
+                body = z3.If(self.sel2(di, r, c), elem_at(val), self.sel2(d, r, c))
+                self.write_arr(st, ref, ArrData(d.shape, L2(r, c, body), d.elem, d.owner, d.view_of), node)
+                return
             raise Undecided("fancy row store")
         rr = self.norm_index(idx, d.shape[0])
         self.safe(st, "row-store", z3.And(rr >= 0, rr < d.shape[0]), node)
